@@ -113,7 +113,8 @@ def random_configs(rng, n):
 
 def repo_digest():
     h = hashlib.sha1()
-    for f in sorted(glob.glob("/repo/kawin/**/*.py", recursive=True)):
+    import kawin as _k          # the tree actually imported (normally /repo, a scratch worktree when PYTHONPATH says so)
+    for f in sorted(glob.glob(os.path.join(os.path.dirname(_k.__file__), "**", "*.py"), recursive=True)):
         if "/tests/" in f:
             continue
         h.update(f.encode()); h.update(open(f, "rb").read())
